@@ -248,7 +248,7 @@ fn main() {
             }
             ctx.exhaustive.insert(format!("all functions x all indices, n={}", n), true);
         } else {
-            let reps = if thorough { 24 } else { 2 };
+            let reps = if thorough { 160 } else { 3 };
             let mut k2 = 0usize;
             for rep in 0..reps {
                 for fam in Fam::ALL {
